@@ -65,7 +65,7 @@ def has_top_text(s):
     return False
 
 
-DECOS = ['cls', 'id', 'attr', 'cls2', 'text', 'rep', 'sc', 'kids']
+DECOS = ['cls', 'id', 'attr', 'cls2', 'text', 'rep', 'sc', 'kids', 'selfkid', 'selfgrandkid']
 
 
 def splice(defn, deco, reverse):
@@ -96,10 +96,14 @@ def splice(defn, deco, reverse):
         out += '/'
     if 'kids' in deco:
         out += '>zp+zq'
+    if 'selfkid' in deco:
+        out += ('+' if 'kids' in deco else '>') + '(' + defn + ')'
+    if 'selfgrandkid' in deco:
+        out += ('+' if ('kids' in deco or 'selfkid' in deco) else '>') + 'zr>(' + defn + ')'
     return out
 
 
-def deco_text(deco):
+def deco_text(deco, key=None):
     s = ''
     if 'cls' in deco:
         s += '.zz7'
@@ -117,6 +121,11 @@ def deco_text(deco):
         s += '/'
     if 'kids' in deco:
         s += '>zp+zq'
+    # the alias again among its own written children / grandchildren: it must expand there exactly like its definition
+    if 'selfkid' in deco:
+        s += ('+' if 'kids' in deco else '>') + key
+    if 'selfgrandkid' in deco:
+        s += ('+' if ('kids' in deco or 'selfkid' in deco) else '>') + 'zr>' + key
     return s
 
 
@@ -140,7 +149,7 @@ def check_alias(case, rec):
         rec.evals()
         try:
             with guard():
-                a = expand(key + deco_text(deco), dict(cfg))
+                a = expand(key + deco_text(deco, key), dict(cfg))
                 if not deco:
                     b = expand(defn, dict(cfg))
                 elif not multi:
@@ -154,7 +163,7 @@ def check_alias(case, rec):
             # the decorations themselves must be visible on the result (a fault shared by the alias path and the spliced path would cancel out above)
             try:
                 with guard():
-                    without_rep = expand(key + deco_text([d for d in deco if d != 'rep']), dict(cfg))
+                    without_rep = expand(key + deco_text([d for d in deco if d != 'rep'], key), dict(cfg))
             except Exception as e:
                 rec.fail(core.exc_bucket(e), 'key %r deco %r: %s: %s' % (key, deco, type(e).__name__, core.short(str(e), 150)))
                 return
@@ -173,16 +182,16 @@ def check_alias(case, rec):
                 problems.append('attributes t=1 u missing')
             if 'text' in deco and a.count('txt') != copies:
                 problems.append('text occurs %d times' % a.count('txt'))
-            if 'kids' in deco and (a.count('<zp>') != copies or a.count('<zq>') != copies):
+            if 'kids' in deco and 'selfkid' not in deco and 'selfgrandkid' not in deco and (a.count('<zp>') != copies or a.count('<zq>') != copies):
                 problems.append('children missing')
             if 'sc' in deco and 'kids' not in deco and 'text' not in deco and '</' in a:
                 problems.append('self-closing mark ignored')
             if problems:
-                rec.fail('alias-decoration-lost', 'syntax %s key %r (= %r) deco %r reverse=%r → %r: %s' % (case['syntax'], key, defn, deco_text(deco), case.get('reverse'), a, '; '.join(problems)))
+                rec.fail('alias-decoration-lost', 'syntax %s key %r (= %r) deco %r reverse=%r → %r: %s' % (case['syntax'], key, defn, deco_text(deco, key), case.get('reverse'), a, '; '.join(problems)))
                 return
         if b is not None and a != b:
             rec.fail('alias!=definition' + (':decorated' if deco else ''), 'syntax %s key %r (= %r) deco %r reverse=%r format=%r\n alias      → %r\n definition → %r' % (
-                case['syntax'], key, defn, deco_text(deco), case.get('reverse'), fmt, a, b))
+                case['syntax'], key, defn, deco_text(deco, key), case.get('reverse'), fmt, a, b))
             return
 
 
@@ -376,11 +385,11 @@ def builtin_cases():
             if has_top_text(defn) or '*' in defn.split('[')[0]:
                 continue
             sc = defn.endswith('/')
-            usable = [d for d in DECOS if not (sc and d in ('kids', 'text', 'sc'))]
+            usable = [d for d in DECOS if not (sc and d in ('kids', 'text', 'sc', 'selfkid', 'selfgrandkid'))]
             k = 0
             for r in range(1, len(usable) + 1):
                 for combo in itertools.combinations(usable, r):
-                    if 'sc' in combo and ('kids' in combo or 'text' in combo):
+                    if 'sc' in combo and ('kids' in combo or 'text' in combo or 'selfkid' in combo or 'selfgrandkid' in combo):
                         continue
                     k += 1
                     # all single decorations and pairs; larger subsets thinned deterministically
